@@ -62,6 +62,21 @@ MISSED_FIRST = {
     "C10-Q2": "search entries carried no attribute values; they now carry one arbitrary octet, so that an error text built from the message is exercised with non-text content",
     "C14-Q1": "no sentence had a matching rule literally named 'dn' after the dn keyword; added (and C13 no longer excludes that rule name when the flag is set)",
     "C19-Q1": "result codes were symbolic 0..80 and the engine never stores symbolic keys in process-wide tables; added interleavings with concrete unknown codes that collide modulo 2^32",
+    # ---- fifth round (R): evaluated blind (except the three marked)
+    "C03-R1": "names were symbolic text, never the library's own str-enum members; skeletons with ExtendedOperations members as names added",
+    "C05-R1": "no delivered text was long; added long peer-controlled text with characters of 1-4 octets at every phase, to both kinds of session",
+    "C07-R1": "the reader was only fed bytes; the same octets now also go through bytearray and memoryviews of unsigned / signed / char items",
+    "C08-R2": "no server send ever failed inside the encoder; added (nothing emitted, nothing retired, state unchanged)",
+    "C09-R2": "no delivery held more than a few messages, and replays ran under the engine's raised recursion limit; added deliveries of thousands of messages and the usual recursion limit for every run of the genuine package",
+    "C11-R1": "the harness flushed after every call, so nothing was ever queued at unbind; added applications that flush lazily / partially",
+    "C11-R2": "the filter argument was never passed; the rich search now chooses among empty and/or, not, equality",
+    "C13-R2": "timed out at first (dictionary lookups keyed by symbolic octets inside urllib); hashing many symbolic octets now fails fast, urllib is run in hunt mode, and concrete values that look like other escape syntaxes were added (the trigger needs 4 octets, beyond the quick bound of 3)",
+    "C15-R1": "inconclusive at first: bytes.fromhex on symbolic text had no model; added",
+    "C16-R1": "extension names never contained the prefix again; added names with inner 'x-' / 'X-'",
+    "C14-R2": "(added after reading the report) a value with dozens of escapes, in a long flat sentence",
+    "C16-R2": "(added after reading the report) thousands of list members / extension values / extensions",
+    "C17-R2": "(added after reading the report) same, as a grammar sentence",
+    "C18-R2": "NOT caught: the cost of `1 << tag_number` for a peer-chosen tag number of several identifier octets is big-integer arithmetic, which the engine does not cost-model (and replaying it would allocate gigabytes)",
     "C19-M2": "duplicate registration was only tried with the same class; now a different class reusing a custom or built-in id must be rejected",
 }
 
